@@ -70,7 +70,7 @@ func randComment(r *mrand.Rand) string {
 	return fmt.Sprintf("c%d", r.IntN(4))
 }
 
-func randPass(r *mrand.Rand, nonEmpty bool) []byte {
+func randPass(r *mrand.Rand, nonEmpty bool, cstr ...bool) []byte {
 	for {
 		var p []byte
 		switch r.IntN(7) {
@@ -87,14 +87,27 @@ func randPass(r *mrand.Rand, nonEmpty bool) []byte {
 		default:
 			p = mon.Bytes(r, 1+r.IntN(32))
 		}
+		if len(cstr) > 0 && cstr[0] {
+			p = noNUL(p)
+		}
 		if len(p) > 0 || !nonEmpty {
 			return p
 		}
 	}
 }
 
+// noNUL: OpenSSH reads passphrases as C strings.
+func noNUL(p []byte) []byte {
+	for i := range p {
+		if p[i] == 0 {
+			p[i] = 'z'
+		}
+	}
+	return p
+}
+
 // wrongPass derives a wrong passphrase related to the right one.
-func wrongPass(r *mrand.Rand, right []byte, nonEmpty bool) []byte {
+func wrongPass(r *mrand.Rand, right []byte, nonEmpty bool, cstr ...bool) []byte {
 	for {
 		var p []byte
 		switch r.IntN(7) {
@@ -116,6 +129,9 @@ func wrongPass(r *mrand.Rand, right []byte, nonEmpty bool) []byte {
 			p = make([]byte, len(right))
 		default:
 			p = mon.Bytes(r, 1+r.IntN(16))
+		}
+		if len(cstr) > 0 && cstr[0] {
+			p = noNUL(p)
 		}
 		if string(p) == string(right) || (nonEmpty && len(p) == 0) {
 			continue
@@ -206,7 +222,7 @@ func (w *world) randomOp(r *mrand.Rand) hop {
 		case x < 38:
 			return hop{kind: agentmodel.RemoveAll, p: p}
 		case x < 45:
-			return hop{kind: agentmodel.Lock, p: p, pass: randPass(r, w.nonEmptyPass)}
+			return hop{kind: agentmodel.Lock, p: p, pass: randPass(r, w.nonEmptyPass, w.nonEmptyPass)}
 		case x < 55:
 			if w.model.Locked && r.IntN(10) < 6 {
 				return hop{kind: agentmodel.Unlock, p: p, pass: append([]byte{}, w.model.Pass...)}
@@ -218,9 +234,9 @@ func (w *world) randomOp(r *mrand.Rand) hop {
 				if w.maxWrongUnlock > 0 {
 					w.maxWrongUnlock--
 				}
-				return hop{kind: agentmodel.Unlock, p: p, pass: wrongPass(r, w.model.Pass, w.nonEmptyPass)}
+				return hop{kind: agentmodel.Unlock, p: p, pass: wrongPass(r, w.model.Pass, w.nonEmptyPass, w.nonEmptyPass)}
 			}
-			return hop{kind: agentmodel.Unlock, p: p, pass: randPass(r, w.nonEmptyPass)}
+			return hop{kind: agentmodel.Unlock, p: p, pass: randPass(r, w.nonEmptyPass, w.nonEmptyPass)}
 		case x < 67:
 			return hop{kind: agentmodel.List, p: p}
 		case x < 87:
@@ -238,7 +254,7 @@ func (w *world) randomOp(r *mrand.Rand) hop {
 			}
 			return w.signerOp(r, &hs)
 		case x < 96:
-			return hop{kind: agentmodel.Extension, p: p, extName: mon.Pick(r, []string{extNone, "", "query", "session-bind@openssh.org.verif"}), extBody: mon.Bytes(r, r.IntN(100))}
+			return hop{kind: agentmodel.Extension, p: p, extName: mon.Pick(r, []string{extNone, "", "query@verif.test", "session-bind@openssh.org.verif"}), extBody: mon.Bytes(r, r.IntN(100))}
 		case x < 98:
 			if !p.extWrap {
 				continue
@@ -317,7 +333,7 @@ func (w *world) motifExpiry(r *mrand.Rand, offIdx int, probeIdx int) {
 	lockDuring := r.IntN(4) == 0
 	var pw []byte
 	if lockDuring {
-		pw = randPass(r, w.nonEmptyPass)
+		pw = randPass(r, w.nonEmptyPass, w.nonEmptyPass)
 		if !w.do(hop{kind: agentmodel.Lock, p: w.pick(r), pass: pw, note: "motif: expiry while locked"}) {
 			return
 		}
@@ -408,7 +424,7 @@ func (w *world) motifLock(r *mrand.Rand) {
 			return
 		}
 	}
-	pw := randPass(r, true)
+	pw := randPass(r, true, w.nonEmptyPass)
 	steps := []hop{
 		{kind: agentmodel.Lock, pass: pw, note: "motif: lock"},
 		{kind: agentmodel.List},
@@ -417,14 +433,14 @@ func (w *world) motifLock(r *mrand.Rand) {
 		{kind: agentmodel.Remove, key: k},
 		{kind: agentmodel.RemoveAll},
 		{kind: agentmodel.Signers},
-		{kind: agentmodel.Lock, pass: randPass(r, true), note: "double lock"},
+		{kind: agentmodel.Lock, pass: randPass(r, true, w.nonEmptyPass), note: "double lock"},
 	}
 	nWrong := 2
 	if w.maxWrongUnlock >= 0 && w.maxWrongUnlock < nWrong {
 		nWrong = w.maxWrongUnlock
 	}
 	for i := 0; i < nWrong; i++ {
-		steps = append(steps, hop{kind: agentmodel.Unlock, pass: wrongPass(r, pw, true)})
+		steps = append(steps, hop{kind: agentmodel.Unlock, pass: wrongPass(r, pw, true, w.nonEmptyPass)})
 		if w.maxWrongUnlock > 0 {
 			w.maxWrongUnlock--
 		}
@@ -541,7 +557,7 @@ func (w *world) motifStaleSigner(r *mrand.Rand, variant int) {
 			return
 		}
 	case 2:
-		pw = randPass(r, true)
+		pw = randPass(r, true, w.nonEmptyPass)
 		if !w.do(hop{kind: agentmodel.Lock, p: w.pick(r), pass: pw}) {
 			return
 		}
@@ -637,10 +653,11 @@ func chooseUniverse(r *mrand.Rand, pool []*testKey, minKeys int, fast bool) (key
 func runSequences(t *testing.T, m *mon.M, pool []*testKey) {
 	total := m.N(3000, 100000)
 	m.Cases("seq", total, func(i int64, r *mrand.Rand) {
-		motif := int(i % 6)
-		mode := int((i / 6) % 4)
-		offIdx := int((i / 24) % 5)
-		probeIdx := int((i / 120) % 4)
+		x := mix(i) // decorrelated from the batch layout (i mod nbatch)
+		motif := int(x % 6)
+		mode := int((x / 6) % 4)
+		offIdx := int((x / 24) % 5)
+		probeIdx := int((x / 120) % 4)
 		var pv any
 		var pst string
 		synctest.Test(t, func(t *testing.T) {
@@ -651,6 +668,9 @@ func runSequences(t *testing.T, m *mon.M, pool []*testKey) {
 		}
 	})
 }
+
+// mix spreads a case index over the workload dimensions.
+func mix(i int64) uint64 { return (uint64(i)*0x9E3779B97F4A7C15 + 0x7F4A7C15) >> 20 }
 
 var modeNames = []string{"direct", "serial", "pipelined", "mixed"}
 
